@@ -3,6 +3,7 @@ import ast
 import re
 
 from sa import pattern as P, pyflow
+from sa import pattern as pat
 from sa.loader import AnalysisError, enclosing_function
 
 EXPLANATION = (
@@ -430,6 +431,58 @@ def rule_r6(repo, run):
         "splicer lists must be passed on unchanged (out.extend(list))", um.loc(w))
 
 
+def rule_r7(repo, run):
+    R = run.rule("C12.R7", "user text reaches the block it names: splicer text given in YAML keeps every line, merges "
+                           "are deep, and a named block is created for every declaration of its kind")
+    am = repo.module("ast")
+    lf = am.func("listify")
+    # string -> lines: split on newline, drop only the empty string after a final newline
+    comps = [c for c in ast.walk(lf) if isinstance(c, (ast.ListComp, ast.GeneratorExp)) and any(g.ifs for g in c.generators)
+             and any("split" in am.seg(g.iter) for g in c.generators)]
+    run.check(R, "ast.listify:keep-lines", not comps,
+              "lines of a block scalar are filtered (%s): blank lines inside user code are dropped"
+              % [am.seg(c) for c in comps][:1], am.loc(lf))
+    split = pat.find(lf, "MV_N[MV_K] = MV_V.split('\\n')")
+    run.check(R, "ast.listify:split", len(split) == 1,
+              "a string value must become its lines by split('\\n') (only the empty element after a trailing newline "
+              "is removed)", am.loc(lf))
+    pops = [c for c in ast.walk(lf) if isinstance(c, ast.Call) and isinstance(c.func, ast.Attribute) and c.func.attr == "pop"]
+    for c in pops:
+        tests = [am.seg(t) for t, pol in pyflow.dominating_tests(c, stop=lf) if pol]
+        run.check(R, "ast.listify:pop", any("[-1] == '\\n'" in t for t in tests) and not c.args,
+                  "an element is removed from the user's lines under %s: only the last one after a trailing newline may go"
+                  % tests, am.loc(c))
+    # deep merge used for splicer_code
+    um = repo.module("util")
+    up = um.func("update")
+    d, u = [a.arg for a in up.args.args][:2]
+    rec = pat.find(up, "%s[MV_K] = update(%s.get(MV_K, {}), MV_V)" % (d, d)) or \
+        pat.find(up, "MV_R = update(%s.get(MV_K, {}), MV_V)\n%s[MV_K] = MV_R" % (d, d))
+    run.check(R, "util.update:recursive", bool(rec),
+              "util.update must merge nested mappings recursively (d[k] = update(d.get(k, {}), v)): a one-level "
+              "dict.update replaces every file-supplied block of a group that splicer_code also mentions", um.loc(up))
+    # named blocks are created whatever the shape of the declaration
+    n = 0
+    for mn in ("wrapc", "wrapf", "wrapp", "wrapl"):
+        m = repo.module(mn)
+        for c in ast.walk(m.tree):
+            if isinstance(c, ast.Call) and (pyflow.call_name(c) or "").endswith("._create_splicer"):
+                fn = enclosing_function(c)
+                n += 1
+                bad = []
+                for t, pol in pyflow.dominating_tests(c, stop=fn):
+                    for x in ast.walk(t):
+                        if isinstance(x, ast.Attribute) and isinstance(x.value, ast.Name) and \
+                                x.value.id in ("node", "cls", "ast", "function", "method", "var", "arg") and \
+                                x.attr not in ("options", "wrap", "fmtdict", "cpp_if"):
+                            bad.append(m.seg(t))
+                name = pyflow.const_str(c.args[0]) if c.args else None
+                run.check(R, "%s.%s:_create_splicer(%s)" % (mn, getattr(fn, "_qualname", "?"), name or m.seg(c.args[0])[:30] if c.args else "?"),
+                          not bad, "the splicer block is only created when %s: for other declarations the user's code for "
+                          "this named block is silently dropped" % sorted(set(bad)), m.loc(c))
+    run.floor(R, "_create_splicer call sites", n, 40)
+
+
 def run(repo, run, tier):
     rule_r1(repo, run)
     rule_r2(repo, run)
@@ -437,3 +490,4 @@ def run(repo, run, tier):
     rule_r4(repo, run)
     rule_r5(repo, run)
     rule_r6(repo, run)
+    rule_r7(repo, run)
